@@ -227,6 +227,7 @@ def run(ctx) -> None:
   ctx.rule('R7', 'sharded Pareto filter: num_shards (default and every explicit argument) is at least 2', 1)
   ctx.rule('R6', 'the client marks a completion infeasible iff a reason was given (presence, not truthiness)', 1)
   ctx.rule('R5', 'dominance predicates compare coordinates directly, never `X - Y <op> 0` (inf - inf = NaN; the property covers +-inf)', 5)
+  ctx.import_rules('C09', {'R12'}, 'R9', 'every reported metric value reaches the service, +-inf included (no metric is dropped on its value)')
   ctx.import_rules('C07', {'R8'}, 'R8', 'ListOptimalTrials ranks the trials of the requested study only: exact key filters in both datastores')
   svc = Svc(ctx)
   fi = svc.rpcs['ListOptimalTrials']
